@@ -59,14 +59,19 @@ def lake_build(targets):
 
 
 def read_obligations(pid):
-    path = os.path.join(LEAN, "GrafeoModel", "Props", pid + ".obligations")
+    """the property's obligations file plus those named in cfg["obligation_files"]"""
+    names = [pid] + [n for n in PROPS.get(pid, {}).get("obligation_files", []) if n != pid]
     obs = []
-    for line in open(path):
-        line = line.strip()
-        if not line or line.startswith("#"):
-            continue
-        parts = line.split()
-        obs.append({"name": parts[0], "kind": parts[1], "hash": parts[2] if len(parts) > 2 else ""})
+    path = None
+    for n in names:
+        p = os.path.join(LEAN, "GrafeoModel", "Props", n + ".obligations")
+        path = path or p
+        for line in open(p):
+            line = line.strip()
+            if not line or line.startswith("#"):
+                continue
+            parts = line.split()
+            obs.append({"name": parts[0], "kind": parts[1], "hash": parts[2] if len(parts) > 2 else "", "file": p})
     return path, obs
 
 
@@ -132,10 +137,12 @@ def audit(pid, cfg, update=False):
             axioms_used.add(a)
         results.append(r)
     if update:
-        with open(path, "w") as f:
-            f.write("# name kind statement-hash   (kinds: full partial witness nonvacuity)\n")
-            for o in obs:
-                f.write("%s %s %s\n" % (o["name"], o["kind"], o["hash"]))
+        for fp in sorted(set(o["file"] for o in obs)):
+            with open(fp, "w") as f:
+                f.write("# name kind statement-hash   (kinds: full partial witness nonvacuity)\n")
+                for o in obs:
+                    if o["file"] == fp:
+                        f.write("%s %s %s\n" % (o["name"], o["kind"], o["hash"]))
         log("obligations file rewritten" + (" (hashes changed)" if changed else ""))
     return results, sorted(axioms_used)
 
@@ -267,7 +274,8 @@ def compare(pid, cfg, lines, impl, model, findings):
                                            "why": "model driver rejected the op"})
             continue
         m, s, sig = parts
-        if sig in cfg.get("ignore_sigs", ()):
+        sig_parts = sig.split("+")
+        if all(p_ in cfg.get("ignore_sigs", ()) for p_ in sig_parts):
             # a deviation that belongs to a sister property sharing this stream: decided there
             s, sig = "-", "-"
         if s != "-":
@@ -276,13 +284,15 @@ def compare(pid, cfg, lines, impl, model, findings):
         if im == m:
             if s == "-" or im == s:
                 stats["ok"] += 1
-            elif sig in open_sigs:
-                stats["known"].setdefault(sig, []).append(i)
+            elif all(p_ in open_sigs or p_ in cfg.get("ignore_sigs", ()) for p_ in sig_parts):
+                # compound signatures (a+b): every component must be a listed finding
+                for p_ in sig_parts:
+                    stats["known"].setdefault(p_, []).append(i)
             else:
                 stats["spec_failures"].append({"line": i, "op": l, "impl": im, "model": m, "spec": s, "sig": sig,
                                                "why": "implementation (and its model) deviate from the specification; not a listed finding"})
         else:
-            if s != "-" and im == s and sig in open_sigs:
+            if s != "-" and im == s and all(p_ in open_sigs for p_ in sig_parts):
                 stats["repaired_upstream"] += 1
             else:
                 stats["disagreements"].append({"line": i, "op": l, "impl": im, "model": m, "spec": s, "sig": sig,
@@ -481,7 +491,9 @@ def main():
         ncases = a.cases or cfg["cases"][tier]
         lines = corpus_lines(pid)
         for st in cfg.get("streams", [cfg["stream"]]):
-            lines += keep_ops(cfg, gen_ops(st, seed, ncases))
+            # per-stream scale: streams with heavy lines take a fraction of the case count
+            n_st = max(1, int(ncases * cfg.get("stream_scale", {}).get(st, 1.0)))
+            lines += keep_ops(cfg, gen_ops(st, seed, n_st))
         impl, e1 = run_impl(lines)
         model, e2 = run_model(lines)
         if e1:
